@@ -4,7 +4,7 @@ import clientcorr
 
 PROP_FILES = ["N2k/Props/C12.lean"]
 LEAN_TARGETS = ["N2k.Props.C12"]
-SUITE_NAMES = ["client-framing", "client-queue", "client-traces"]
+SUITE_NAMES = ["client-framing", "client-queue", "client-long-lines", "client-traces"]
 ASSUMPTIONS = ["PARTIAL w.r.t. the runtime: the theorems are about an LTS at the granularity of externally observable events; real scheduling is represented by traces of real runs (virtual-time asyncio loop, fake transport) that the LTS must accept event by event; OS scheduling, real sockets/serial ports, wall-clock time and blocking inside a task step are outside the model",
                "asyncio primitives (StreamReader, Lock, Queue, Task) and tenacity's retry loop are the real objects in the validated runs and parameters of the model"]
 TRUSTED_EXTRA = ["C12: Model/Client.lean (+Reader.lean) hand models tied by trace validation over systematically enumerated session scripts (fault kind x injection step x client kind x callback behaviour)"]
@@ -20,7 +20,8 @@ def correspondence(ctx):
     ss, hits = clientcorr.suite_framing(ctx, n)
     global _C12_HITS
     _C12_HITS = hits
-    return ss + [clientcorr.suite_traces(ctx, n * 2)]
+    ll, _ = clientcorr.suite_long_lines(ctx, 40 if ctx["tier"] == "quick" else 600)
+    return ss + ll + [clientcorr.suite_traces(ctx, n * 2)]
 
 
 def search(ctx, broken, corr_broken):
@@ -29,7 +30,8 @@ def search(ctx, broken, corr_broken):
     LAST_SEARCH_CANDIDATES = n
     hits = clientcorr.run_monitors(ctx, n).get("C12", [])
     ss, c12hits = clientcorr.suite_framing(ctx, 400 if ctx["tier"] == "quick" else 4000)
-    hits = hits + [{"key": "C12/delivery/" + h["kind"] + ("-stall" if h.get("stall") else ""), "what": h["what"], "detail": h} for h in c12hits]
+    _, llhits = clientcorr.suite_long_lines(ctx, 40 if ctx["tier"] == "quick" else 600)
+    hits = hits + [{"key": "C12/delivery/" + h["kind"] + ("-stall" if h.get("stall") else ""), "what": h["what"], "detail": h} for h in c12hits + llhits]
     seen, out = set(), []
     for h in hits:
         if h["key"] in seen:
@@ -46,6 +48,17 @@ def standing_search(ctx):
 
 
 def replay(rp):
+    d = rp.get("detail") or {}
+    if rp.get("kind") == "client-session" and str(d.get("kind", "")).startswith("long-lines-"):
+        import clientsim
+        kind = d["kind"].split("-")[-1]
+        sim = clientsim.Sim(kind, cb_mode="ok")
+        sim.force_limit = d["limit"]
+        lines = [bytes.fromhex(x) for x in d["packets"]]
+        sim = clientcorr.c12_session(kind, lines, [bytes.fromhex(x) for x in d["reads"]], "ok", sim=sim)
+        got = list(getattr(sim, "decoder_inputs", []))
+        exp = [l.decode("utf-8", errors="replace").strip() for l in lines if len(l) - 1 <= d["limit"]]
+        return got == exp, f"line limit {d['limit']}: the decoder was handed {len(got)} lines, the stream has {len(exp)} lines of at most that length"
     if rp.get("kind") != "client-session" or not rp.get("scenario"):
         return False, "not an input replay: " + str(rp.get("what") or rp.get("broken_theorems") or rp.get("broken_correspondence"))[:500]
     sim = clientcorr.run_scenario(rp["scenario"])
